@@ -238,6 +238,9 @@ def run_scripts(cases):
                 pass
             except anyio.WouldBlock:
                 closed_streams = False
+        # tasks still alive although the context was left (before the scripted endpoint lets go of
+        # the POSTs it never answered)
+        leaked = len(asyncio.all_tasks()) - tasks_before
         for f in posts:
             if not f.done():
                 f.cancel()
@@ -262,7 +265,7 @@ def run_scripts(cases):
                 want = {"post": "\u00e9\U0001F600", "event": "\u00e9\U0001F600\u2028"}.get(src)
                 intact = want is None or (d.get("result") or {}).get("t") == want
                 items.append(["own" if same else ("ownWrongType" if str(mid) == str(rid) else "other"), src, 0, same, bool(intact)])
-        ev("End", read=items, tasks=len(asyncio.all_tasks()) - tasks_before, clients=all(c.is_closed for c in clients), streams=closed_streams,
+        ev("End", read=items, tasks=max(leaked, len(asyncio.all_tasks()) - tasks_before), clients=all(c.is_closed for c in clients), streams=closed_streams,
            expReq=path["req"], expOwn=path["own"], expSrv=path["srv"])
         return {"estab": estab, "ev": evs, "idshape": idshape, "exit": exit_path}
 
